@@ -21,6 +21,6 @@ def make_check():
     return beacon.BeaconCheck(
         "C02", select, beacon.judge_plain,
         rule="every `slots` record (ProcessSlots from a recorded pre-state to a target slot, single and multi-slot jumps, across epoch and fork boundaries): zrnt's post-state bytes vs the Spec's. distinct = (chain, record)",
-        make_targets=["Properties/C02.vo", "Beacon/Run.vo", "Beacon/Refine/ImplRun.vo"], trust=beacon.BEACON_TRUST,
-        extra_streams=["C02IMPL"],
+        make_targets=["Properties/C02.vo", "Beacon/Run.vo", "Beacon/Refine/ImplRun.vo", "Beacon/Refine/AsmRun.vo"], trust=beacon.BEACON_TRUST,
+        extra_streams=["C02IMPL", "C02ASM"],
         model_files=["coq/Beacon/Spec/*.v", "coq/Beacon/Run.v", "coq/Beacon/Proofs/TransitionRules.v", "coq/Properties/C02.v"])
